@@ -3,7 +3,7 @@ CONSTANTS
   MaxDepth = 3
   Classes = {"Filter", "VideoIn", "VideoOut", "ImageIn", "ImageOut", "MQTTOut", "Recorder", "REST", "Util", "Webvis"}
   SchemeClasses = {"rtsp", "https", "exotic", "upper", "short"}
-  CharClasses = {"plain", "bang", "colon", "slash", "question", "hash", "pct", "mixed"}
+  CharClasses = {"plain", "bang", "colon", "slash", "question", "hash", "pct", "mixed", "long"}
 INIT Init
 NEXT Next
 INVARIANT TypeOK
